@@ -13,5 +13,9 @@ def run(chk):
     for lib in libs:
         _compose.run_lib(lib, chk, "C08")
     _graph.run_family(chk, {"C08"}, tier="quick")
+    # whole programs split across both backends with functions::copy (forward, backward): the gradient oracle's
+    # cross-device and fan-out cases, and every function on both backends against the same finite differences
+    from props.C01 import grad_oracle
+    grad_oracle(chk, 2 if chk.tier == "quick" else 20)
     _compose.finish(chk)
     chk.trusted += ["agreement 'up to float32 rounding' on general float inputs is measured, not proved; CUDA/OpenCL backends cannot be built here"]
